@@ -93,6 +93,7 @@ type Ctx struct {
 	mu         sync.Mutex
 	evals      int64
 	hashes     []uint64
+	hashLimit  int
 	clauses    map[string]*ClauseStat
 	counters   map[string]int64
 	samples    map[string][]any
@@ -168,8 +169,16 @@ func (c *Ctx) Distinct(parts ...string) {
 	}
 	c.mu.Lock()
 	c.hashes = append(c.hashes, hh.Sum64())
-	if len(c.hashes) > 1<<22 {
+	if c.hashLimit < 1<<22 {
+		c.hashLimit = 1 << 22
+	}
+	if len(c.hashes) > c.hashLimit {
 		c.compactHashes()
+		// (room for as many again before the next compaction: a shard with more
+		// distinct cases than the limit must not sort them on every call)
+		if 2*len(c.hashes) > c.hashLimit {
+			c.hashLimit = 2 * len(c.hashes)
+		}
 	}
 	c.mu.Unlock()
 }
